@@ -344,7 +344,7 @@ def items_of(g):
     dict(name, vt, rel, value, graphic, ref, kids=[dict(name, vt, rel, ref)])."""
     def it(name, vt, rel, value='', graphic='', ref=None, kids=()):
         return {'name': name, 'vt': vt, 'rel': rel, 'value': value, 'graphic': graphic,
-                'ref': list(ref) if ref else None, 'kids': list(kids)}
+                'ref': list(ref) if ref else None, 'kids': list(kids), 'has_seq': bool(kids)}
     code = lambda c: f'{c[0]}|{c[1]}'   # noqa: E731
     out = [it('112039|DCM', 'TEXT', 'HAS OBS CONTEXT', g['tracking_id']),
            it('112040|DCM', 'UIDREF', 'HAS OBS CONTEXT', g['tracking_uid'])]
